@@ -439,3 +439,4 @@ MANIFEST = {
             "torch.randperm exists in direct_ptycho_utils, outside this property's modules.",
     "technique": "idiom recognition + algebraic normal forms (div-mod axiom, loss scaling) + CFG must-pass-through (AST)",
 }
+MANIFEST["text"] += ' Also: the batcher is built after the reset has re-installed the generator; zero_grad_all / step_schedulers / set_schedulers dispatch to the same models as step_optimizers (R6).'
